@@ -139,7 +139,7 @@ func firstN(s string, n int) string {
 	return s
 }
 
-func verifyAll(eng *Engine, fcs []*FuncContract, lemmas []*AxiomDef, dir string, batchMs, singleMs int, stats *SolveStats, keep bool) []*FuncResult {
+func verifyGen(eng *Engine, fcs []*FuncContract, lemmas []*AxiomDef) []*FuncResult {
 	var results []*FuncResult
 	for _, fc := range fcs {
 		results = append(results, eng.VerifyFunc(fc))
@@ -147,6 +147,16 @@ func verifyAll(eng *Engine, fcs []*FuncContract, lemmas []*AxiomDef, dir string,
 	for _, l := range lemmas {
 		results = append(results, eng.VerifyLemma(l))
 	}
+	return results
+}
+
+func verifyAll(eng *Engine, fcs []*FuncContract, lemmas []*AxiomDef, dir string, batchMs, singleMs int, stats *SolveStats, keep bool) []*FuncResult {
+	results := verifyGen(eng, fcs, lemmas)
+	dischargeAll(results, dir, batchMs, singleMs, stats, keep)
+	return results
+}
+
+func dischargeAll(results []*FuncResult, dir string, batchMs, singleMs int, stats *SolveStats, keep bool) {
 	var wg sync.WaitGroup
 	sem := make(chan struct{}, 8)
 	for _, r := range results {
@@ -159,10 +169,4 @@ func verifyAll(eng *Engine, fcs []*FuncContract, lemmas []*AxiomDef, dir string,
 		}(r)
 	}
 	wg.Wait()
-	return results
-}
-
-func cmdCheck(eng *Engine, args []string, tier string, keep, verbose bool, start time.Time) int {
-	fmt.Fprintln(os.Stderr, "check: not implemented yet")
-	return 2
 }
